@@ -405,8 +405,25 @@ def gen_params(r: Any, kind: str) -> Dict[str, Any]:
     elif kind == "normalize":
         p["s"] = r.choice([" AB ", "aB", "  ", "x Y ", "", "Zz  ", "  MiXed Case"])
     elif kind == "glob":
-        p["text"] = "".join(r.choice(_GLOB_TEXT) for _ in range(r.randrange(0, 5)))
-        p["pat"] = "".join(r.choice(_GLOB_PAT_ATOMS) for _ in range(r.randrange(0, 4)))
+        atoms = [r.choice(_GLOB_PAT_ATOMS) for _ in range(r.randrange(0, 4))]
+        p["pat"] = "".join(atoms)
+        if r.random() < 0.5:
+            # a text built to match the pattern atom by atom (positives are otherwise rare)
+            out = []
+            for a in atoms:
+                if a in ("*", "**"):
+                    out.append("".join(r.choice(_GLOB_TEXT) for _ in range(r.randrange(0, 3))))
+                elif a == "?":
+                    out.append(r.choice(_GLOB_TEXT))
+                elif a.startswith("[!"):
+                    out.append(r.choice([c for c in _GLOB_TEXT if c not in a[2:-1]] or ["b"]))
+                elif a.startswith("[") and len(a) > 1:
+                    out.append(r.choice(a[1:-1]))
+                else:
+                    out.append(a)
+            p["text"] = "".join(out)
+        else:
+            p["text"] = "".join(r.choice(_GLOB_TEXT) for _ in range(r.randrange(0, 5)))
     elif kind == "cidr_contains" and r.random() < 0.35:
         # two canonical networks (or a network and its first address) that start at the same,
         # well-aligned address: containment is decided by the prefix lengths alone
